@@ -600,18 +600,30 @@ pub fn get_value(
         Some(Function::Substring) => {
             let string = String::from(&function_arg);
 
-            let mut pos: i32 = match &function_args.is_empty() {
-                true => 0,
-                false => *&function_args[0].parse::<i32>().unwrap() - 1,
+            let mut pos: i64 = match function_args.first() {
+                None => 0,
+                Some(pos) => match pos.parse::<i32>() {
+                    Ok(pos) => pos as i64 - 1,
+                    _ => error_exit(
+                        "Could not parse position argument of SUBSTRING function",
+                        pos.as_str(),
+                    ),
+                },
             };
 
             if pos < 0 {
-                let string_length = string.chars().count() as i32;
+                let string_length = string.chars().count() as i64;
                 pos = string_length - pos.abs() + 1;
             }
 
             let len = match &function_args.get(1) {
-                Some(len) => len.parse::<usize>().unwrap(),
+                Some(len) => match len.parse::<usize>() {
+                    Ok(len) => len,
+                    _ => error_exit(
+                        "Could not parse length argument of SUBSTRING function",
+                        len.as_str(),
+                    ),
+                },
                 _ => 0,
             };
 
@@ -624,6 +636,9 @@ pub fn get_value(
         }
         Some(Function::Replace) => {
             let source = function_arg;
+            if function_args.len() < 2 {
+                error_exit("REPLACE function requires three arguments", source.as_str());
+            }
             let from = &function_args[0];
             let to = &function_args[1];
 
@@ -662,7 +677,10 @@ pub fn get_value(
             match function_arg.parse::<f64>() {
                 Ok(val) => {
                     let power = match function_args.first() {
-                        Some(power) => power.parse::<f64>().unwrap(),
+                        Some(power) => match power.parse::<f64>() {
+                            Ok(power) => power,
+                            _ => return Variant::empty(VariantType::String),
+                        },
                         _ => 0.0,
                     };
 
@@ -679,7 +697,10 @@ pub fn get_value(
             match function_arg.parse::<f64>() {
                 Ok(val) => {
                     let base = match function_args.first() {
-                        Some(base) => base.parse::<f64>().unwrap(),
+                        Some(base) => match base.parse::<f64>() {
+                            Ok(base) => base,
+                            _ => return Variant::empty(VariantType::String),
+                        },
                         _ => 10.0,
                     };
 
@@ -766,9 +787,13 @@ pub fn get_value(
                 return Variant::empty(VariantType::String);
             }
 
-            let seconds = function_arg.parse::<u64>().unwrap();
-            let formatted = Duration::from_secs(seconds).to_human_time_string();
-            Variant::from_string(&formatted)
+            match function_arg.parse::<u64>() {
+                Ok(seconds) => {
+                    let formatted = Duration::from_secs(seconds).to_human_time_string();
+                    Variant::from_string(&formatted)
+                }
+                _ => Variant::empty(VariantType::String),
+            }
         }
 
         // ===== Datetime functions =====
@@ -907,10 +932,20 @@ pub fn get_value(
             match function_arg.parse::<i64>() {
                 Ok(val) => {
                     if function_args.is_empty() {
+                        if val <= 0 {
+                            error_exit(
+                                "Upper bound of RANDOM function must be positive",
+                                function_arg.as_str(),
+                            );
+                        }
                         Variant::from_int(rng.random_range(0..val))
                     } else {
                         let limit = function_args.first().unwrap();
                         match limit.parse::<i64>() {
+                            Ok(limit) if val >= limit => error_exit(
+                                "Upper bound of RANDOM function must exceed the lower bound",
+                                limit.to_string().as_str(),
+                            ),
                             Ok(limit) => Variant::from_int(rng.random_range(val..limit)),
                             _ => error_exit(
                                 "Could not parse limit argument of RANDOM function",
